@@ -18,6 +18,7 @@ from __future__ import annotations
 import ast
 import json
 import os
+import time
 import random
 import warnings
 import multiprocessing
@@ -31,7 +32,7 @@ from gverif.props import c03_ast as A
 
 PRELUDE = "from typing import Literal\nimport typing as t\n"
 CMPOPS = list(A.CMPOPS)
-QUICK_STRIDE = 151       # quick: 1/151 of the two-edge chains
+QUICK_STRIDE = 211       # quick: 1/211 of the two-edge chains
 THOROUGH_STRIDE, THOROUGH_PARTS = 35, 7   # thorough: 7 residues mod 35 = 1/5 of them
 REPLAY_PROCS = 6
 APPLIED = "abcdefghpqrstuv"     # repairs committed in /repo: the spec's plain Impl (ExprBuild.tla `Applied`); revertible in the model only
@@ -118,7 +119,7 @@ def case_id(case: dict) -> str:
 def check_case(run: Run, w: World, case: dict, variant: int, stats: dict):
     top, p0 = case["top"], case["P0"]
     binmap, cmpop = variant_maps(variant)
-    tree, itree, rtree = (A.map_ops(case[k], binmap, cmpop) for k in ("tree", "itree", "rtree"))
+    tree, itree, rtree = (A.map_ops(case[k] or case["tree"], binmap, cmpop) for k in ("tree", "itree", "rtree"))
     impl_t = A.map_tokens(case["impl"], binmap, A.compare_ops_in_order(itree, skip_spec=False))
     ref_t = A.map_tokens(case["ref"], binmap, A.compare_ops_in_order(itree, skip_spec=False))
     cid = case_id(case)
@@ -268,9 +269,14 @@ def tlc_jobs(tier: str) -> dict:
     # lambda parameter lists: <= DEPTH positional-only, <= DEPTH + 1 positional-or-keyword, every number of defaults
     jobs["lambda"] = dict(constants=dict(DEPTH=2 if tier == "quick" else 3, FAMILY="lambda", STRIDE=1, OFFSET=0, DOMAIN="all", EMIT="TRUE", FIXED=FIXED_TLA, REVERTED=""), workers=1)
     jobs["defect"] = dict(cfg="ExprBuild_defect.cfg", constants=dict(DEPTH=2, FAMILY="chain", STRIDE=1, OFFSET=0, DOMAIN="defect", EMIT="FALSE", FIXED=FIXED_TLA, REVERTED=""), workers=1, dump_trace=True)
-    for x in APPLIED:      # model-only regression domain, one job per committed repair (depth-first: the first old defect ends the job)
-        jobs[f"regress-{x}"] = dict(cfg="ExprBuild_regress.cfg", workers=1, dump_trace=True, dfs_queue=True,
-                                    constants=dict(DEPTH=2, FAMILY="chain", STRIDE=1, OFFSET=0, DOMAIN="defect", EMIT="FALSE", FIXED=FIXED_TLA, REVERTED=f'"{x}"'))
+    if tier == "quick":    # model-only regression domain in one job: every repair reverted = the transcription of the pinned code
+        jobs["regress-all"] = dict(cfg="ExprBuild_regressall.cfg", workers=3,
+                                   constants=dict(DEPTH=2, FAMILY="chain", STRIDE=1, OFFSET=0, DOMAIN="defect", EMIT="FALSE", FIXED=FIXED_TLA,
+                                                  REVERTED=", ".join(f'"{x}"' for x in APPLIED)))
+    else:                  # one job per committed repair (depth-first: the first old defect of that repair ends the job)
+        for x in APPLIED:
+            jobs[f"regress-{x}"] = dict(cfg="ExprBuild_regress.cfg", workers=1, dump_trace=True, dfs_queue=True,
+                                        constants=dict(DEPTH=2, FAMILY="chain", STRIDE=1, OFFSET=0, DOMAIN="defect", EMIT="FALSE", FIXED=FIXED_TLA, REVERTED=f'"{x}"'))
     return jobs
 
 
@@ -383,6 +389,12 @@ def main(tier: str, replay: str | None = None):
             if name == "defect":
                 dres = res
                 continue
+            if name == "regress-all":
+                tlc.must(res)
+                run.add_tlc(res)
+                for note in res.notes:
+                    regress.setdefault(note["flag"], {"chain": "/".join(l["s"] for l in note["chain"]), "cause": note["cause"]})
+                continue
             if name.startswith("regress-"):
                 # model-only regression domain: with the repair reverted in the model TLC must exhibit the old defect again
                 flag = name[-1]
@@ -412,8 +424,10 @@ def main(tier: str, replay: str | None = None):
             if chunk:
                 pending.append(pool.submit(_replay_chunk, chunk, sorted(FIXED)))
             res.cases = []
+        t_tlc = time.time()
         for fut in pending:
             merge(run, stats, *fut.result())
+        t_replay = time.time()
     # the defect domain: TLC must exhibit a violation of the property on the model, and the real code must reproduce it
     tlc.must(dres, allow_violations=True)
     run.add_tlc(dres)
@@ -435,7 +449,10 @@ def main(tier: str, replay: str | None = None):
     run.extra["cases"] = counts
     singles = [c for c in keep if len(c["chain"]) == 1 and c["top"] == "value"]
     edges = [c for c in keep if len(c["chain"]) == 2 and c["top"] == "value"]
+    t_ctx0 = time.time()
     check_contexts(run, w, singles + (edges if tier == "thorough" else rnd.sample(edges, 600)), stats)
+    run.extra["phase_seconds"] = {"tlc_and_overlapped_replay": round(t_tlc - run.t0, 1), "replay_tail": round(t_replay - t_tlc, 1),
+                                  "storage_sites": round(time.time() - t_ctx0, 1)}
     run.exhaustive = False      # exhaustive at depth <= 2 and for lambda parameter lists; depth 3 is a seeded residue class
     run.extra["exhaustive_up_to_depth"] = 2
     run.extra.update(parentheses_validated_against_cpython=stats["parens_validated"], storage_sites_checked=stats["sites"],
